@@ -276,9 +276,71 @@ def replay_column(groups):
   return out
 
 
+# ----------------------------------------------------------------------------------------------
+# polynomial fields on the sphere (SpherePoly.tla / ShallowWaterPoly.tla): non-zonal, unbalanced
+# ----------------------------------------------------------------------------------------------
+
+def _peval(terms, X, Y, Z):
+  """exported polynomial [[i, j, k, n, d], ...] at the nodes."""
+  np, _, _ = spectral.np_jax()
+  out = np.zeros_like(X)
+  for i, j, k, n, d in terms:
+    out = out + (n / d) * X ** i * Y ** j * Z ** k
+  return out
+
+
+def _swpoly_one(c):
+  np, jax, jnp = spectral.np_jax()
+  from dinosaur import coordinate_systems, layer_coordinates, shallow_water as sw, scales
+  out = []
+  a, omega = fl(c['a']), fl(c['omega'])
+  NL = len(c['layers'])
+  brief = {'a': c['a'], 'omega': c['omega'], 'psi': [l['psi'] for l in c['layers']], 'chi': [l['chi'] for l in c['layers']],
+           'phi': [l['phi'] for l in c['layers']], 'oro': c['oro'], 'grid': c['grid']}
+
+  def bad(sig, detail):
+    out.append({'case': c, 'sig': sig, 'detail': f'{brief}: {detail}'})
+  rho = np.array([fl(r) for r in c['rho']])
+  phibar = np.array([fl(r) for r in c['phibar']])
+  specs = sw.ShallowWaterSpecs(densities=rho, radius=a, angular_velocity=omega, gravity_acceleration=1.0, scale=scales.DEFAULT_SCALE)
+  grid = dataflow.make_grid(c['grid'], radius=a)
+  coords = coordinate_systems.CoordinateSystem(grid, layer_coordinates.LayerCoordinates(NL))
+  lon, sinlat = (np.asarray(v, np.float64) for v in grid.nodal_mesh)
+  cosl = np.sqrt(1 - sinlat ** 2)
+  X, Y, Z = cosl * np.cos(lon), cosl * np.sin(lon), sinlat
+  real = np.zeros(X.shape, bool)
+  real[:grid.longitude_nodes, :grid.latitude_nodes] = True      # padded layouts carry padding nodes
+  modal = lambda nod: np.asarray(grid.to_modal(jnp.asarray(nod)))
+  ev = lambda t: np.where(real, _peval(t, X, Y, Z), 0.0)
+  vor = np.stack([modal(ev(l['zeta'])) for l in c['layers']])
+  div = np.stack([modal(ev(l['delta'])) for l in c['layers']])
+  pot = np.stack([modal(ev(l['phi'])) for l in c['layers']])
+  oro = jnp.asarray(modal(ev(c['oro']))) if c['oro'] else None
+  eq = sw.ShallowWaterEquations(coords, specs, oro, phibar)
+  st = sw.State(jnp.asarray(vor), jnp.asarray(div), jnp.asarray(pot))
+  ex, im = eq.explicit_terms(st), eq.implicit_terms(st)
+  for f in ('vorticity', 'divergence', 'potential'):
+    tot = np.asarray(grid.to_nodal(jnp.asarray(np.asarray(getattr(ex, f)) + np.asarray(getattr(im, f)))))
+    exp = np.stack([ev(l[f]) for l in c['layers']])
+    scale = 1.0 + float(np.abs(exp).max())
+    err = np.where(real, np.abs(tot - exp), 0.0)
+    if not np.all(np.isfinite(tot)) or err.max() > 2e-11 * scale:
+      j = np.unravel_index(np.argmax(err), err.shape)
+      bad(f'steady:swpoly:{f}', f'total {f} tendency at layer {int(j[0])}, node (lon {lon[j[1], j[2]]:.4f}, sin(lat) {sinlat[j[1], j[2]]:.4f}): '
+          f'code {tot[j]!r}, continuous equations {exp[j]!r} (max |field| {scale - 1:.3g})')
+  return out
+
+
+replay_swpoly = common.per_case(_swpoly_one, 'steady:swpoly')
+
+
 def replay(ctx, kind, cases):
   if kind == 'column':
     for m in replay_column([cases]):
+      ctx.record(kind, m)
+    return
+  if kind == 'swpoly':
+    for m in replay_swpoly(cases):
       ctx.record(kind, m)
     return
   for m in replay_balanced(cases):
@@ -333,12 +395,35 @@ def run(ctx):
     ctx.distinct.add(json.dumps(['column', c['b'], c['tref'], c['kappa'], c['d'], c['tp']]))
   ctx.sample({'column': next(c for c in rc.cases if len(c['b']) == 4 and any(c['tp']))})
   ctx.notes['column_family_cases'] = len(rc.cases)
+  # polynomial fields on the sphere: non-zonal unbalanced shallow-water states, total tendency pointwise
+  sw_cases = []
+  for layers in (1, 2):
+    rs = ctx.tlc('ShallowWaterPoly', f'ShallowWaterPoly_{layers}.cfg', tag=f'swpoly{layers}', workers=6)
+    ctx.require_actions(rs, ['Diagnose', 'Vorticity', 'Divergence', 'Potential'])
+    cs = sorted(rs.cases, key=lambda c: json.dumps(c, sort_keys=True))
+    if len(cs) < 100 or not any(l['vorticity'] for c in cs for l in c['layers']):
+      raise common.MachineryError('vacuous export of ShallowWaterPoly')
+    sw_cases += cs[ctx.seed % 4::4] if (q and layers == 1) else cs[ctx.seed % 2::2] if q else cs
+  grids = [dict(M=6), dict(M=6, impl='fast', mult=4), dict(M=7, offset=0.3)]
+  for i, c in enumerate(sw_cases):
+    c['grid'] = grids[i % len(grids)]
+  for m in common.parallel_map('c05', 'replay_swpoly', sw_cases, tag='swp', outdir=os.path.join(ctx.out, 'par')):
+    ctx.record('swpoly', m)
+  ctx.replayed += len(sw_cases)
+  ctx.comparisons += 3 * len(sw_cases)
+  for c in sw_cases:
+    ctx.distinct.add(json.dumps(['swpoly', c['a'], c['omega'], c['oro'], [[l['psi'], l['chi'], l['phi']] for l in c['layers']], c['grid']]))
+  ctx.sample({'shallow_water_polynomial_state': {k: sw_cases[len(sw_cases) // 2][k] for k in ('a', 'omega', 'oro', 'grid')},
+              'layer0': sw_cases[len(sw_cases) // 2]['layers'][0]})
+  ctx.notes['shallow_water_polynomial_cases'] = len(sw_cases)
   ctx.assumptions += [
       'the first clause in full generality (pointwise agreement with the continuous equations on all alias-free inputs) is decided only on '
-      'the zonal-polynomial subspace, the resting family and the column family (one harmonic of divergence over horizontally uniform '
-      'temperature / tracer / surface pressure: temperature, tracer and surface-pressure tendencies): products of non-zonal harmonics (Gaunt coefficients) are outside exact TLC '
+      'the zonal-polynomial subspace, the resting family, the column family (one harmonic of divergence over horizontally uniform '
+      'temperature / tracer / surface pressure: temperature, tracer and surface-pressure tendencies) and, for the layered shallow-water '
+      'equations, on arbitrary (non-zonal, unbalanced) combinations of harmonics of degree <= 2 written as polynomials in (x, y, z) '
+      '(SpherePoly.tla: products of fields are polynomials, no Gaunt coefficients needed); for the primitive equations general products of non-zonal harmonics are outside the exact machine so far '
       'arithmetic; steady_state_jw (transcendental profile) and the library-built shallow-water states are not used as oracles',
       'zero means < 1e-10 of the largest individual term of the same equation']
   return ctx.finish(rule='one case per balanced configuration of Balanced.tla (solid-body rotation: radius x rotation rate x surface-pressure '
                          'curvature x per-level winds x humidity x split; rest: radius x total wavenumber x split, 3 labels; jets: 1-3 layers x '
-                         'polynomial profiles x densities) x grids; column family: one case per (level set, reference profile, divergence column, temperature column)')
+                         'polynomial profiles x densities) x grids; column family: one case per (level set, reference profile, divergence column, temperature column); shallow-water polynomial family: one case per (psi, chi, phi) menu choice x radius x rotation x orography x 1-2 layers x grid')
